@@ -178,8 +178,8 @@ type c20StraceCase struct {
 	Call     string `json:"injected_call"`
 }
 
-// c20StraceSweep runs the cross-check for one scenario.
-func c20StraceSweep(w *fw.W, name string) {
+// c20StraceSweep runs the cross-check for one scenario (onlySys restricts it to one system call: replay).
+func c20StraceSweep(w *fw.W, name, onlySys string) {
 	exe, err := os.Executable()
 	if err != nil {
 		w.Count("strace_unavailable", 1)
@@ -229,7 +229,7 @@ func c20StraceSweep(w *fw.W, name string) {
 			continue
 		}
 		errno, known := c20StraceErrno[tc.Sys]
-		if !known {
+		if !known || (onlySys != "" && tc.Sys != onlySys) {
 			continue
 		}
 		w.Count("strace_calls_in_window", 1)
